@@ -160,7 +160,7 @@ structure CliArgs where
   paths : List Str
   deriving Repr, DecidableEq
 
-def fileFilterPrefix : Str := "--file-filter=".toList
+def fileFilterPrefix : Str := ['-', '-', 'f', 'i', 'l', 'e', '-', 'f', 'i', 'l', 't', 'e', 'r', '=']
 
 /-- the argument loop restricted to `-i <str>`, `-i<str>`, `--file-filter=<str>` and path names (`argv[1..]`), values as
     written; `none` = `Result::Fail` ("argument to '-i' is missing") or an option outside this model (also
